@@ -181,6 +181,15 @@ pub fn structural_conflict(table: &[MEndpoint], e: &MEndpoint) -> Option<String>
         {
             return Some("same-method-path-overlapping-versions".into());
         }
+        // T and T/{w:.*} both match the request path T (the wildcard with an
+        // empty remainder): for the request set they share, they are "the same
+        // method and path", so sharing a version makes dispatch ambiguous
+        if e.method == o.method
+            && e.range.intersects(&o.range)
+            && wildcard_shadow(std::slice::from_ref(o), e)
+        {
+            return Some("same-method-path-overlapping-versions:wildcard-empty-match".into());
+        }
     }
     None
 }
